@@ -9,6 +9,9 @@ package preparedmessages
 //@   requires SumMW(committeeMembers, len(committeeMembers)) < 2^64
 //@   ensures [proposal-of-that-view] result != nil ==> result.PreprepareMessage != nil && ppStored[latestPreparedView]
 //@     | && result.PreprepareMessage.content.SignedHeader().View() == latestPreparedView && result.PreprepareMessage.content.SignedHeader().BlockHeight() == blockHeight
+//@   ensures [certificate-is-well-formed] result != nil ==> result.PreprepareMessage.content != nil && (forall i int :: 0 <= i && i < len(result.PrepareMessages) ==> result.PrepareMessages[i] != nil && result.PrepareMessages[i].content != nil)
+//@   ensures [one-prepare-message-per-listed-sender] result != nil ==> len(result.PrepareMessages) == len(PIds(storage, pver, blockHeight, latestPreparedView, result.PreprepareMessage.content.SignedHeader().BlockHash()))
+//@     | && content(result.PreprepareMessage.content.SignedHeader().BlockHash()) == ppHash[latestPreparedView]
 //@   ensures [prepares-for-the-proposal-hash] result != nil ==> result.PrepareMessages == PMsgs(storage, pver, blockHeight, latestPreparedView, result.PreprepareMessage.content.SignedHeader().BlockHash())
 //@   ensures [prepared-quorum] result != nil ==> len(senderIds) == len(PIds(storage, pver, blockHeight, latestPreparedView, result.PreprepareMessage.content.SignedHeader().BlockHash())) + 1
 //@     | && SW(senderIds, committeeMembers, len(committeeMembers)) >= Qz(SumMW(committeeMembers, len(committeeMembers)))
